@@ -221,14 +221,14 @@ Definition flow_structure_ok : bool :=
   && forallb (fun f => snd f) gen_flow_facts
   && Nat.eqb (List.length gen_flow_facts) 11
   (* waking the caller never blocks the owner loop *)
-  && match assoc "fcallRequest.response" gen_flow_chan_caps with Some n => N.leb 1 n | None => false end
-  && match assoc "fcallRequest.err" gen_flow_chan_caps with Some n => N.leb 1 n | None => false end
+  && match assoc "caller.reply" gen_flow_chan_caps with Some n => N.leb 1 n | None => false end
+  && match assoc "caller.err" gen_flow_chan_caps with Some n => N.leb 1 n | None => false end
   (* every hand-off channel of Flow.step exists.  Their capacities are not constrained: Flow.step treats
      them as rendezvous, the most blocking reading; capacity only adds enabled hand-offs (proved for the
      connection's capacity [cap], which C09_complete quantifies over) *)
   && forallb (fun ch => match assoc ch gen_flow_chan_caps with Some _ => true | None => false end)
-       ["transport.requests"; "handle.responses"; "handle.writes"; "handle.failed";
-        "serve.requests"; "serve.responses"; "serve.completed"].
+       ["client.submit"; "client.replies"; "client.to-writer"; "client.write-failed";
+        "server.requests"; "server.responses"; "server.completed"].
 
 Theorem C09_flow_structure : flow_structure_ok = true.
 Proof. vm_compute. reflexivity. Qed.
